@@ -5,7 +5,7 @@
 set -u
 export GOFLAGS=-mod=mod GOPROXY=off
 T=$(mktemp -d /tmp/c16static.XXXXXX); trap 'rm -rf "$T"' EXIT
-cd /repo || exit 2
+cd "${VERIF_REPO:-/repo}" || exit 2
 go run ./cmd/p4info_code_gen -p4info conf/p4/bin/p4info.txt -output $T/a.go >/dev/null 2>$T/err || { cat $T/err >&2; exit 2; }
 go run ./cmd/p4info_code_gen -p4info conf/p4/bin/p4info.txt -output $T/b.go >/dev/null 2>$T/err || { cat $T/err >&2; exit 2; }
 gofmt -w $T/a.go $T/b.go
